@@ -59,6 +59,8 @@ Qed.
 
 Lemma size0 (l : list (Q * Q)) : (2 * Z.of_nat (length l) =? 0)%Z = SC.is_empty l.
 Proof. destruct l; reflexivity. Qed.
+Lemma len0 (l : list (Q * Q)) : (Z.of_nat (length l) =? 0)%Z = SC.is_empty l.
+Proof. destruct l; reflexivity. Qed.
 Lemma xdiv_two x : xdiv x (2#1) = Fin (x / (2#1)). Proof. reflexivity. Qed.
 Lemma half_prog s n : (SC.nQ s - inject_Z (Z.of_nat n)) / (2#1) == SC.half_excess s n.
 Proof. unfold SC.half_excess, SC.nQ, Z.sub. rewrite inject_Z_plus, inject_Z_opp. reflexivity. Qed.
@@ -214,9 +216,15 @@ Ltac ext_step :=
          end.
 (* what a split has decided is remembered (the program may evaluate the same term again later) *)
 Ltac known3 := repeat match goal with H : ?f ?x = _ |- context [?f ?x] => rewrite H end.
-Ltac post3 := known3; rewrite ?item_last2, ?item_first2, ?item_second2, ?item_first1, ?size0, ?xsubx_fin, ?zn_eqb, ?zn_eqb1, ?zn_eqb0; ev5_cbv; known3; cbv beta iota;
-              ext_step; ev5_cbv; known3;
-              change (qeqb (2#1) 0) with false; change (inject_Z 0) with 0; cbv beta iota.
+(* the normalised contingency table is named once and folded wherever the program recomputes it *)
+Ltac fold3 :=
+  repeat match goal with c := ?body |- context [?body] => progress change body with c end;
+  try match goal with
+      | |- context [map (map (fun x : Q => x / ?n)) ?m] => let c := fresh "ctab" in set (c := map (map (fun x : Q => x / n)) m)
+      end.
+Ltac post3 := known3; rewrite ?item_last2, ?item_first2, ?item_second2, ?item_first1, ?len0, ?size0, ?xsubx_fin, ?zn_eqb, ?zn_eqb1, ?zn_eqb0; ev5_cbv;
+              known3; cbv beta iota; ext_step; ev5_cbv; known3;
+              change (qeqb (2#1) 0) with false; change (inject_Z 0) with 0; cbv beta iota; fold3.
 Ltac rt_step := first [rewrite rt_call | rewrite rt_if | rewrite rt_seq | rewrite rt_ret | rewrite rt_raise]; ev5_cbv; post3.
 Ltac split_prog :=
   lazymatch goal with
